@@ -28,6 +28,8 @@ TECHNIQUE += '; run-length layer interpreted exhaustively over {~, a, 1} <= 4/6 
 LEVEL_TEXT += ' Added clause: the run-length layer is lossless also on text that contains its own marker characters.'
 TECHNIQUE += '; Packet.__init__ over falsy recipients and payloads'
 LEVEL_TEXT += ' Added clause: a falsy payload is a payload.'
+TECHNIQUE += '; reader decoding policy; resume-offset contract of receive() on a stand-in file'
+LEVEL_TEXT += " Added clauses: undecodable bytes do not stop the reader; the stored offset is the file's own position."
 LEVEL_NOTE = 'Trusted: str.replace and re.sub scan left to right; a text-mode readline() returns a line without trailing newline only at end of file.'
 EXPLANATION = ('Static analysis of /repo sources, TatSu not imported. Stage sequences are extracted from the def-use chain of the '
                'value threaded through pack/unpack; regex literals of the codecs are compiled to NFAs by the checker; receive() is '
